@@ -222,12 +222,15 @@ def assign_sybyl_type(atom):
         # check for SO4
         if list(bonded_elements.values()).count('O') == 4:
             no_o2 = 0
-            for i in range(len(atom.bonded_atoms)):
-                if len(atom.bonded_atoms[i].bonded_atoms) == 1 and no_o2 < 2:
-                    set_type(atom.bonded_atoms[i], 'O.2')
+            # the order of bonded_atoms follows the grid walk of the bond
+            # search and changes with the position of the molecule: take the
+            # oxygens by name, so that the same two are typed O.2 everywhere
+            for bonded in sorted(atom.bonded_atoms, key=lambda a: a.name):
+                if len(bonded.bonded_atoms) == 1 and no_o2 < 2:
+                    set_type(bonded, 'O.2')
                     no_o2 += 1
                 else:
-                    set_type(atom.bonded_atoms[i], 'O.3')
+                    set_type(bonded, 'O.3')
         set_type(atom, 'S.3')
         return
     # Phosphorus
